@@ -233,11 +233,11 @@ func (n *netNode) lastLogs(k int) []string {
 	}
 	all = filtered
 	if len(all) > k {
-		all = all[:k]
+		all = all[len(all)-k:]
 	}
 	var out []string
 	for _, en := range all {
-		out = append(out, fmt.Sprintf("%s %s %v", en.LoggerName, en.Message, en.ContextMap()))
+		out = append(out, fmt.Sprintf("%s %s %s %v", en.Time.Format("15:04:05.000"), en.LoggerName, en.Message, en.ContextMap()))
 	}
 	return out
 }
